@@ -1,7 +1,7 @@
 """C17 - fallback bundles are generated lazily, once, in order - under any interleaving.
 
 case   = "cache <mode>:<k>:<needs>/<endNeed>;op;op;..."      mode a = async (AsyncCache), s = sync (Cache)
-ops    = start:<c>:<depth>:<api v|s|m> | poll:<c> | fire
+ops    = start:<c>:<depth>:<api v|s|m|n>  (n = format_messages with an attribute-only message as the shallow key) | poll:<c> | fire
 obs    = hdr | s | busy | idle | P#<polls>.<pulls>!<wakes> | R<j>/<got>#..!.. | RN/<got>#..!.. | f#..!..
 (see lean/FluentModel/Drv/CacheDrv.lean and harness/src/bin/fvh_cache.rs)
 """
@@ -72,7 +72,7 @@ class C17(Base):
         ops = []
         for c in range(k):
             if rng.random() < 0.85:
-                ops.append("start:%d:%d:%s" % (c, rng.randint(1, n + 2), rng.choice("vvvsm")))
+                ops.append("start:%d:%d:%s" % (c, rng.randint(1, n + 2), rng.choice("vvvsmn")))
         rng.shuffle(ops)
         ln = rng.randint(3, maxlen)
         wf = rng.choice([0.15, 0.3, 0.5])
@@ -81,7 +81,7 @@ class C17(Base):
             if r < wf:
                 ops.append("fire")
             elif r < wf + 0.12:
-                ops.append("start:%d:%d:%s" % (rng.randrange(k), rng.randint(1, n + 2), rng.choice("vvvsm")))
+                ops.append("start:%d:%d:%s" % (rng.randrange(k), rng.randint(1, n + 2), rng.choice("vvvsmn")))
             else:
                 ops.append("poll:%d" % rng.randrange(k))
         return "cache " + ";".join([header("a", k, needs, end)] + ops)
@@ -99,7 +99,7 @@ class C17(Base):
         depth = {}
         for c in range(k):
             depth[c] = rng.randint(1, n + 1)
-            ops.append("start:%d:%d:%s" % (c, depth[c], rng.choice("vvsm")))
+            ops.append("start:%d:%d:%s" % (c, depth[c], rng.choice("vvsmn")))
         # expected-behaviour simulation (reference executor)
         need = list(needs) + [end]
         cached = 0
@@ -165,7 +165,7 @@ class C17(Base):
             c = rng.randrange(k)
             r = rng.random()
             if r < 0.8:
-                ops.append("start:%d:%d:%s" % (c, rng.randint(1, n + 2), rng.choice("vvsm")))
+                ops.append("start:%d:%d:%s" % (c, rng.randint(1, n + 2), rng.choice("vvsmn")))
                 if rng.random() < 0.85:
                     ops.append("poll:%d" % c)
             elif r < 0.95:
